@@ -66,6 +66,10 @@ fn saturated_root(rng: &mut Rng) -> Option<GameState> {
 /// of turns (same history length, same newest entry), but 'X on d' (two steps from the final square, so that a four-step turn can recreate it) has occurred twice in the first
 /// and once in the second - what one of them may not repeat, the other may.
 fn sibling_roots(rng: &mut Rng) -> Vec<GameState> {
+    sibling_roots_only(rng, None)
+}
+/// `only`: build just that one of the two sibling games (the other one never exists in this process while it is built).
+fn sibling_roots_only(rng: &mut Rng, only: Option<usize>) -> Vec<GameState> {
     use crate::model::*;
     for _ in 0..40 {
         // u centre, v beside it, d and w the two squares beyond v on either side (both two steps from u)
@@ -92,7 +96,10 @@ fn sibling_roots(rng: &mut Rng) -> Vec<GameState> {
         let step = |from: usize, to: usize| -> Option<Code> { (0..4u8).find(|k| nb(from, *k) == Some(to)).map(|k| map_code(step_code(from, k), false, flip)) };
         let mut roots = vec![];
         // game A: X v-d, d-v-u, u-v-d, d-v-u ; game B: X v-w, w-v-u, u-v-d, d-v-u
-        for first in [d, w] {
+        for (which, first) in [d, w].into_iter().enumerate() {
+            if only.map_or(false, |o| o != which) {
+                continue;
+            }
             let turns: [Vec<usize>; 4] = [vec![v, first], vec![first, v, u], vec![u, v, d], vec![d, v, u]];
             let mut script: Vec<Code> = vec![];
             let mut z = za;
@@ -129,7 +136,7 @@ fn sibling_roots(rng: &mut Rng) -> Vec<GameState> {
                 roots.push(g);
             }
         }
-        if roots.len() == 2 {
+        if roots.len() == 2 || (only.is_some() && roots.len() == 1) {
             return roots;
         }
     }
@@ -338,6 +345,24 @@ pub fn c18(cfg: &Cfg) -> i32 {
                         if let Some(g) = w3_root(&mut rng, 10 + (k % 30) as u32, false) {
                             roots.push(g);
                         }
+                        // a sibling game built while nothing else exists must equal the same game built while its sibling
+                        // (same position after the same number of turns, another past) is kept alive by another thread
+                        {
+                            let snap = rng.clone();
+                            let alone: Vec<u64> = sibling_roots_only(&mut snap.clone(), Some(1)).iter().map(|g| c18bare::fingerprint(g, true)).collect();
+                            let keeper = {
+                                let mut r = snap.clone();
+                                std::thread::spawn(move || sibling_roots_only(&mut r, Some(0))).join().unwrap_or_default()
+                            };
+                            let with: Vec<u64> = sibling_roots_only(&mut snap.clone(), Some(1)).iter().map(|g| c18bare::fingerprint(g, true)).collect();
+                            if !alone.is_empty() && !keeper.is_empty() && !with.is_empty() {
+                                s.count("sibling_built_alone_vs_beside_live_sibling");
+                                if alone != with {
+                                    s.violate("C18", "concurrent_result_ne_sequential", format!("C18|sibling_alone|{}", k), format!("round {}: a game built while its sibling game (same position after the same number of turns, another past; built by another thread and still alive) exists differs from the same game built alone (whole history and all answers compared)", k), json!({"kind": "threads", "observer": "sibling_alone_vs_beside", "round": k, "seed": cfg.seed}));
+                                }
+                            }
+                            drop(keeper);
+                        }
                         let sib = sibling_roots(&mut rng);
                         if !sib.is_empty() {
                             s.count("pool_rounds_with_sibling_games");
@@ -421,6 +446,16 @@ pub fn c18(cfg: &Cfg) -> i32 {
                         let mut groups: Vec<Vec<GameState>> = vec![vec![root]];
                         for t in twins {
                             groups.push(vec![t]);
+                        }
+                        // the same look-alikes moved through ONE storage slot per thread
+                        {
+                            let flat: Vec<GameState> = groups.iter().map(|g| g[0].clone()).collect();
+                            let (bad, n) = c18bare::slot_round(&flat, 4, 6);
+                            s.add("slot_round_queries", n as u64);
+                            s.add("nodes_compared", n as u64);
+                            if bad > 0 {
+                                s.violate("C18", "concurrent_result_ne_sequential", format!("C18|slot_round|{}", k), format!("slot round {}: {} of {} answers differ from the ones computed beforehand when look-alike states (same position, other pasts) are moved in turn into one state variable per thread and queried there", k, bad, n), json!({"kind": "threads", "observer": "slot_round", "round": k, "seed": cfg.seed}));
+                            }
                         }
                         let (bad, n) = c18bare::duel_round(&groups, 4 + (k as usize % 3) * 4, 60);
                         s.count("history_duel_rounds");
